@@ -75,6 +75,7 @@ class Program:
         self.bodies = {}
         self.by_last = {}       # last segment -> [Body]
         self.closures = {}      # span string -> Body
+        self.closures_all = {}  # span string -> [Body] (closures written inside a macro share the macro's span)
         self.consts = {}        # name suffix -> value string or Body
         self.impls = {}         # impl span -> (trait or None, self type base, header text)
         self.enums = {}         # enum base name -> [variant names]
@@ -91,7 +92,7 @@ class Program:
             for b in parse.parse_file(p):
                 b.crate = c
                 self.add(b)
-            for m in re.finditer(r"^(alloc\d+) \(static: ([\w:]+),", open(p, errors="replace").read(), re.M):
+            for m in re.finditer(r"^(alloc\d+) \(static: ([^,)\n]+)[,)]", open(p, errors="replace").read(), re.M):
                 self.allocs[(c, m.group(1))] = m.group(2)
                 self.allocs[m.group(1)] = m.group(2)
             self.scan_enums(os.path.join(REPO, c, "src"))
@@ -105,6 +106,8 @@ class Program:
             for b in parse.parse_file(hp):
                 b.crate = "mirharness"
                 self.add(b)
+            for m in re.finditer(r"^(alloc\d+) \(static: ([^,)\n]+)[,)]", open(hp, errors="replace").read(), re.M):
+                self.allocs[("mirharness", m.group(1))] = m.group(2)
         self.enums.setdefault("Option", ["None", "Some"])
         self.enums.setdefault("Result", ["Ok", "Err"])
         self.enums.setdefault("Ordering", ["Relaxed", "Release", "Acquire", "AcqRel", "SeqCst"])
@@ -124,6 +127,7 @@ class Program:
             m = re.match(r"^&?(?:mut )?(\{closure@[^}]*\})", b.args[0][1])
             if m and re.search(r"\{closure#\d+\}$", b.name):
                 self.closures[m.group(1)] = b
+                self.closures_all.setdefault(m.group(1), []).append(b)
         if b.kind in ("const", "static"):
             self.consts[b.name] = b
         m = re.search(r"<impl at ([^>]*?):(\d+):(\d+): (\d+):(\d+)>", b.name)
@@ -240,6 +244,16 @@ class Program:
         if len(c4) == 1 and len(segs) >= 2 and (strip_generics(c4[0].name).endswith(sp) or sp.endswith(strip_generics(c4[0].name))):
             return c4[0]
         return None
+
+    def closure_body(self, clo):
+        """body of a closure value: by span; closures expanded from one macro share a span and are told apart by the function that
+        created the value (`parent::{closure#k}`)"""
+        cands = self.closures_all.get(clo.span, [])
+        if len(cands) > 1 and getattr(clo, "parent", None):
+            mine = [b for b in cands if b.name.startswith(clo.parent + "::{closure#")]
+            if len(mine) == 1:
+                return mine[0]
+        return self.closures.get(clo.span)
 
     def find(self, type_base, method, trait=None):
         cands = [b for b in self.by_last.get(method, []) if b.impl and b.impl[1] == type_base and (b.impl[0] == trait)]
